@@ -275,7 +275,7 @@ fn build_struct_json_body(struct_def: &StructDef, attr_ptr: &MySyntaxNodePtr) ->
         });
         // field value as JSON
         parts.push(call_to_json(
-            var_expr(field_name, attr_ptr),
+            var_expr(&struct_field_binder(idx), attr_ptr),
             Some(field_ty),
             attr_ptr,
         ));
@@ -295,11 +295,12 @@ fn build_struct_json_body(struct_def: &StructDef, attr_ptr: &MySyntaxNodePtr) ->
                     fields: struct_def
                         .fields
                         .iter()
-                        .map(|(field_name, _)| {
+                        .enumerate()
+                        .map(|(idx, (field_name, _))| {
                             (
                                 field_name.clone(),
                                 Pat::PVar {
-                                    name: field_name.clone(),
+                                    name: struct_field_binder(idx),
                                     astptr: *attr_ptr,
                                 },
                             )
@@ -411,7 +412,7 @@ fn build_struct_body(struct_def: &StructDef, attr_ptr: &MySyntaxNodePtr) -> Expr
             astptr: *attr_ptr,
         });
         parts.push(call_to_string(
-            var_expr(field_name, attr_ptr),
+            var_expr(&struct_field_binder(idx), attr_ptr),
             Some(field_ty),
             attr_ptr,
         ));
@@ -437,11 +438,12 @@ fn build_struct_body(struct_def: &StructDef, attr_ptr: &MySyntaxNodePtr) -> Expr
                     fields: struct_def
                         .fields
                         .iter()
-                        .map(|(field_name, _)| {
+                        .enumerate()
+                        .map(|(idx, (field_name, _))| {
                             (
                                 field_name.clone(),
                                 Pat::PVar {
-                                    name: field_name.clone(),
+                                    name: struct_field_binder(idx),
                                     astptr: *attr_ptr,
                                 },
                             )
@@ -670,6 +672,13 @@ fn check_field_types<'a>(
         }
     }
     Ok(())
+}
+
+/// Local that a derived struct method binds field `idx` to. Not the field's own name: a
+/// field called like a builtin the method uses (`json_escape_string`, `bool_to_json`, ..)
+/// would shadow it.
+fn struct_field_binder(idx: usize) -> AstIdent {
+    AstIdent::new(&format!("__field{}", idx))
 }
 
 fn call_function(name: &str, args: Vec<Expr>, attr_ptr: &MySyntaxNodePtr) -> Expr {
